@@ -58,7 +58,10 @@ namespace awkward {
     for (auto x : contents_) {
       x.get()->clear();
     }
-    length_ = -1;
+    if (length_ != -1) {
+      // keep the fields (the type knowledge); only the data are removed
+      length_ = 0;
+    }
     begun_ = false;
     nextindex_ = -1;
   }
